@@ -99,16 +99,34 @@ static void mutex_body(caller_t *c)
             continue;
         int h = __sync_add_and_fetch(&g_holders, 1);
         EV("\"e\":\"Enter\",\"t\":%d,\"h\":%d", c->id, h);
-        int nest = 0;
+        int nest = 0, deep = 0;
         if (g_recursive && c->x[5]) {
             /* nested acquisition by the owner must succeed without blocking */
             acquire(c, (r & 1) ? A_TRY : A_LOCK, 0);
             nest = 1;
+            if (c->x[7]) {
+                /* deep nesting: the mutex stays held until as many unlocks as locks */
+                deep = c->x[7];
+                for (int k = 0; k < deep; k++) {
+                    int rr = (k % 3 == 0) ? ABT_mutex_trylock(g_m) : (k % 3 == 1) ? ABT_mutex_lock(g_m) : ABT_mutex_spinlock(g_m);
+                    CHK(rr);
+                }
+                EV("\"e\":\"MNest\",\"t\":%d,\"n\":%d", c->id, deep);
+            }
         }
         if (g_cs_yield && c->kind == K_ULT && c->x[4])
             ABT_thread_yield();
         else
             abtv_point();
+        if (deep) {
+            for (int k = 0; k < deep; k++) {
+                CHK(ABT_mutex_unlock(g_m));
+                if (k % 37 == 0)
+                    abtv_point();
+            }
+            EV("\"e\":\"MNest\",\"t\":%d,\"n\":%d", c->id, -deep);
+            abtv_point();
+        }
         if (nest)
             release(c, 0);
         h = __sync_sub_and_fetch(&g_holders, 1);
@@ -157,6 +175,8 @@ static void scn_mutex(void)
         c->x[4] = rnd(2);
         c->x[5] = rnd(2);
         c->x[6] = rnd(3);
+        static const int depths[] = { 0, 0, 0, 2, 5, 260, 700, 66000 };
+        c->x[7] = (c->kind != K_TASK) ? depths[rnd(8)] : 0;
     }
     callers_launch(32768);
     callers_join();
